@@ -21,7 +21,8 @@ CHUNK = 4
 FLOOR = 0.5
 RULE = ('acc: 8 atoms {exp,log,entropy,kldiv,softplus,pexp,plog,expcone} x 13 exponents {-4..4,+-0.5,+-2.5} x 3 '
         'scales {0.5,1,2} x contexts {solo, first/middle/last of 3 exp cones, next to a SOC row, user bounds, '
-        'integer variable, all together} x {ECOS, Gurobi}, degrees {4,5,6,8} inside the case; non-trivial = exact '
+        'integer variable, all together with/without the integer} x {ECOS, Gurobi} (contexts with an integer '
+        'variable: Gurobi only), degrees {4,5,6,8} inside the case; non-trivial = exact '
         'ECOS optimum agrees with the closed form (1e-5) and every soc_solve of the case returned an optimum that '
         'differs from the exact value (the approximation is really in the loop) ; carry: 8 atoms x contexts x '
         'degrees; hist: 8 atoms x {ro,dro} x {ECOS,Gurobi} x 3 histories')
@@ -32,6 +33,11 @@ ASSUMPTIONS = [
     'exponent 0); solver noise of up to 1.3e-4 was measured at degree 8, so "no larger at higher degrees" is read as '
     '"the same bound holds" (DESIGN calibration note)',
     'an inaccurate / failed solve is vacuous, never a violation',
+    'degrees > 8 (thorough tier): Gurobi runs with NumericFocus=3 and the bound is 4e-3 - with default parameters its '
+    'answer at degree 12 is off by 1.7e-3 although the formulation is accurate to 1.5e-6 (tolerances are amplified '
+    'by the squaring tower)',
+    'ECOS_BB (ECOS with integer variables) is not used as a judge: it hangs and returned infeasible points as '
+    '"optimal" at degree 12 (and 0 / -1 for exponential-cone programs); integer contexts are solved by Gurobi only',
     'Gurobi restricted licence is sufficient for these sizes (<= 3 cones, degree <= 8)',
 ]
 TRUSTED = ['ECOS (exact exponential cone solves and SOCP)', 'Gurobi (SOCP)', 'math.exp/log closed forms', 'NumPy']
@@ -40,14 +46,15 @@ ATOMS = ['exp', 'log', 'entropy', 'kldiv', 'softplus', 'pexp', 'plog', 'expcone'
 EXPONENTS = [0.0, 1.0, -1.0, 2.0, -2.0, 3.0, -3.0, 4.0, -4.0, 0.5, -0.5, 2.5, -2.5]
 SCALES = [1.0, 0.5, 2.0]
 DEG_Q = [4, 5, 6, 8]
-CONTEXTS = ['solo', 'first3', 'mid3', 'last3', 'soc', 'bounds', 'int', 'all']
+CONTEXTS = ['solo', 'first3', 'mid3', 'last3', 'soc', 'bounds', 'int', 'allc', 'all']
+INT_CONTEXTS = ('int', 'all')     # contain an integer variable: SOC interface Gurobi only (ECOS_BB is not trusted)
 CONCAVE = ('log', 'entropy', 'plog')
 
 
 def gen_cases(tier, seed):
     thorough = tier == 'thorough'
     degs = DEG_Q + ([7, 10, 12] if thorough else [])
-    ctx_q = CONTEXTS if thorough else ['solo', 'mid3', 'last3', 'soc', 'bounds', 'int', 'all']
+    ctx_q = CONTEXTS if thorough else ['solo', 'mid3', 'last3', 'soc', 'bounds', 'int', 'allc', 'all']
     # hist and carry first: few and cheap
     for atom in ATOMS:
         for fe in ('ro', 'dro'):
@@ -64,17 +71,22 @@ def gen_cases(tier, seed):
             for e in EXPONENTS:
                 for z in SCALES:
                     for iface in ('eco', 'grb'):
-                        if not thorough and ctx not in ('solo', 'all') and z != SCALES[(seed + EXPONENTS.index(e)) % 3]:
+                        if iface == 'eco' and ctx in INT_CONTEXTS:
+                            continue
+                        if not thorough and ctx not in ('solo', 'all', 'allc') and \
+                                z != SCALES[(seed + EXPONENTS.index(e)) % 3]:
                             # quick tier: in the non-solo contexts one scale per exponent (rotating with the seed);
                             # the thorough tier runs the full product
                             continue
                         yield {'kind': 'acc', 'atom': atom, 'e': e, 'z': z, 'ctx': ctx, 'iface': iface, 'degs': degs,
                                'fe': 'ro'}
     # dro front end (soc_solve of rsome/dro.py): solo + all contexts
-    for ctx in (('solo', 'all') if not thorough else CONTEXTS):
+    for ctx in (('solo', 'allc', 'all') if not thorough else CONTEXTS):
         for atom in ATOMS:
             for e in (EXPONENTS if thorough else EXPONENTS[:9]):
                 for iface in ('eco', 'grb'):
+                    if iface == 'eco' and ctx in INT_CONTEXTS:
+                        continue
                     yield {'kind': 'acc', 'atom': atom, 'e': e, 'z': 1.0, 'ctx': ctx, 'iface': iface, 'degs': degs,
                            'fe': 'dro'}
 
@@ -245,6 +257,8 @@ def build(case, fe=None):
         int_part(); tested()
     elif ctx == 'all':
         bound_part(); decoy('exp'); soc_part(); tested(); int_part(); decoy('log')
+    elif ctx == 'allc':
+        bound_part(); decoy('exp'); soc_part(); tested(); decoy('log')
     else:
         raise ValueError(ctx)
     for th in deferred:
@@ -268,8 +282,14 @@ def build(case, fe=None):
 GRB_PARAMS = {'TimeLimit': 5, 'NonConvex': 1}     # never hand a malformed (non-convex) model to spatial B&B
 
 
-def _params(iface):
-    return GRB_PARAMS if iface == 'grb' else {}
+def _params(iface, degree=4):
+    if iface != 'grb':
+        return {}
+    if degree > 8:
+        # the squaring tower amplifies the solver's feasibility tolerance by 2^degree: with default parameters
+        # Gurobi's answer at degree 12 is off by 1.7e-3 (1.5e-6 with NumericFocus=3) - solver noise, not rsome
+        return dict(GRB_PARAMS, NumericFocus=3)
+    return GRB_PARAMS
 
 
 def _solver(iface):
@@ -324,7 +344,7 @@ def run_acc(case):
         return {'status': 'unsupported', 'ops': ops, 'outcome': 'unsupported: do_math raises ' + type(ex).__name__,
                 'detail': str(ex)[:160]}
     # exact exponential-cone solve on its own fresh model
-    has_int = ctx in ('int', 'all')
+    has_int = ctx in INT_CONTEXTS
     try:
         if has_int:
             # ECOS_BB with exponential cones returns unreliable "optimal" answers (0 / -1 observed): the closed
@@ -350,7 +370,7 @@ def run_acc(case):
         bb = build(case)
         ops += bb.ops + 1
         try:
-            bb.m.soc_solve(_solver(iface), degree=d, display=False, params=_params(iface))
+            bb.m.soc_solve(_solver(iface), degree=d, display=False, params=_params(iface, d))
         except Exception as ex:  # noqa
             if 'size-limited license' in str(ex):
                 continue        # environment: Gurobi restricted licence, not the code under test
@@ -368,6 +388,8 @@ def run_acc(case):
         # relative to the magnitude of the cone-defined components: with several cones the objective is a signed
         # sum that may nearly cancel (0.044 = -1 + 1.649 - 0.693), so |v| itself is no yardstick
         tol = 1e-3 * max(abs(v_cf), b.scale) + 2e-4
+        if d > 8:
+            tol *= 4.0      # head-room for amplified solver tolerances at the degrees above the calibrated range
         err = abs(v - v_cf)
         refs = [('closed form', v_cf)] + ([('exact ECOS', v_x)] if ok_x else [])
         for nm, ref in refs:
